@@ -5,6 +5,10 @@ ROOT = os.path.dirname(os.path.dirname(os.path.abspath(__file__)))
 
 # id -> (level, technique, level text, level note, design ref)
 CLAIMED = {
+ "C07": ("exploration", "runtime monitoring: membership oracle over independently decoded chunk values, probing the library's BloomFilter.Check and a spec-level SBBF check (hand-written xxhash64) of the raw bitset",
+         "Held on every explored file: for each row group and each of 16 columns covering all 8 physical types (optional, repeated, dictionary), every distinct non-null value decoded from the chunk is reported present by FileBloomFilter.Check and by an independent split-block check of the stored bitset, across 8 production modes (incremental small pages, pre-sized from buffers, dictionary, verbatim copy, re-encode, merged pack path, sources without filters, pending rows before a row group), deferred and gzip-compressed filters, row-group splits. Sampling: exploration.",
+         "Ground truth per chunk from specreader's decode (tied to the input by C02). Spec-level check skipped for BOOLEAN and compressed bitsets.",
+         "DESIGN.md §4 C07"),
  "C13": ("fault_enumeration", "runtime fault injection: bit flips / bursts inside page bodies located by an independent page walk, 10 access paths per fault, error-or-nothing oracle with clean-prefix comparison",
          "For every enumerated (file, page, fault) point each of the 10 access paths (sequential rows, typed reader, chunk pages, seek into the page, seek then rows, seek past the dictionary, file-level column pages, value reader, async mode, re-encoding WriteRowGroup) ended with errors.Is(err, ErrCorrupted) before delivering anything that depends on the page, and what was delivered before equals the clean file. All single-bit positions are enumerated for bodies <= 16 bytes; larger bodies are sampled (first/last bit, PRNG bit, 2-32 bit bursts).",
          "Page boundaries come from specreader's walk of the clean file. CRC-32 detects all single-bit errors and bursts <= 32 bits. Faults outside page bodies (headers, footer) are outside the statement.",
